@@ -370,6 +370,8 @@ class StmtMixin:
 
     def ex_For(self, s, st):
         def fin(itv, s1):
+            if isinstance(itv, Ref) and s1.obj(itv).kind == 'smap':
+                itv = s1.alloc(HObj('smapitems', meta={'map': itv, 'what': 'keys'}))
             seq = self.concrete_iterable(itv, s1)
             spec = self.loop_spec(s)
             if seq is not None and spec is None:
